@@ -833,6 +833,14 @@ Proof.
     inversion H. eexists. eexists. repeat split.
 Qed.
 
+Lemma match_dynamic : forall {A} (s : string) (x y : A),
+  match s with "dynamic" => x | _ => y end = if String.eqb s "dynamic" then x else y.
+Proof.
+  intros A s x y.
+  do 7 (destruct s as [|a s]; [reflexivity|]; destruct a as [[|] [|] [|] [|] [|] [|] [|] [|]]; try reflexivity).
+  destruct s; reflexivity.
+Qed.
+
 Theorem ft_equiv : forall fuel y f,
   v2_ft fuel y = Some f -> ft_conv_ok fuel y = true ->
   exists y', conv_ft y = Ok y' /\ v3_ft fuel y' = Some (erase_clk f).
@@ -908,10 +916,11 @@ Proof.
     - apply class_of_lookup. lk. exact Hcl.
     - now apply one_of_2.
     - kin. }
-  destruct (one_of c ["array"]) eqn:C5.
+  assert (Harr : one_of c ["array"] = String.eqb c "array") by (unfold one_of; simpl; apply orb_false_r).
+  rewrite Harr. clear Harr.
+  destruct (String.eqb c "array") eqn:C5.
   { (* array *)
-    assert (c = "array") as ->.
-    { unfold one_of in C5. simpl in C5. rewrite orb_false_r in C5. now apply String.eqb_eq. }
+    apply String.eqb_eq in C5. subst c.
     cbn [String.eqb Ascii.eqb Bool.eqb] in H, Hok.
     destruct (negb (keys_in ["class"; "length"; "element-type"] l)); [discriminate|].
     destruct (lookup "element-type" l) as [e|] eqn:Ee; [|discriminate].
@@ -922,7 +931,7 @@ Proof.
       destruct (IH e fe Efe Hok) as [e' [R1 R2]].
       unfold conv_ft in R1. destruct (conv_cata e) as [re ke]. cbn [fst] in R1. subst re.
       cbn. eexists. split; [reflexivity|]. cbn [v3_ft]. cbn. rewrite R2. reflexivity.
-    - destruct (String.eqb s "dynamic") eqn:Es; [|destruct s as [|[[|] [|] [|] [|] [|] [|] [|] [|]] s]; discriminate].
+    - rewrite match_dynamic in H. destruct (String.eqb s "dynamic") eqn:Es; [|discriminate].
       apply String.eqb_eq in Es. subst s.
       destruct (v2_ft n e) as [fe|] eqn:Efe; [|discriminate]. inversion H; subst f. clear H.
       destruct (IH e fe Efe Hok) as [e' [R1 R2]].
@@ -946,7 +955,7 @@ Proof.
     - (* a mapping of fields *)
       destruct (omapM (fun kv => option_map (pair (fst kv)) (v2_ft n (snd kv))) fl) as [fs|] eqn:Efs; [|discriminate].
       inversion H; subst f. clear H.
-      rewrite klookup_kids, Ef. cbn [option_map]. rewrite conv_cata_snd.
+      rewrite klookup_kids, Ef. cbn [option_map].
       destruct (conv_cata (YMap fl)) as [rf kf] eqn:Ecf.
       assert (kf = map (fun kv => (fst kv, conv_ft (snd kv))) fl) as ->.
       { rewrite <- conv_cata_snd, Ecf. reflexivity. }
@@ -968,4 +977,837 @@ Proof.
       + exact Hn0k.
       + rewrite <- E. apply rd_z_ext. exact Hn0a.
       + left. split; [|reflexivity]. unfold opt_of. now rewrite Hn0m. }
+Qed.
+
+(* ================================================================== data stream types: what the converter builds *)
+Ltac inv_rbind H :=
+  let a := fresh "r" in let E := fresh "R" in
+  apply rbind_ok in H; destruct H as [a [E H]].
+
+Definition feature_val (o : option yaml) : yaml := match o with Some y => y | None => YBool false end.
+
+Definition pkt_node (total content : yaml) (fbeg fend fdisc : option yaml) : entries :=
+  [("total-size-field-type", total); ("content-size-field-type", content);
+   ("beginning-timestamp-field-type", feature_val fbeg);
+   ("end-timestamp-field-type", feature_val fend);
+   ("discarded-event-records-counter-snapshot-field-type", feature_val fdisc)].
+
+Definition er_node (fid fts : option yaml) : entries :=
+  [("type-id-field-type", feature_val fid); ("timestamp-field-type", feature_val fts)].
+
+Definition dst_node (d : entries) (def : option yaml) (pkt er : entries) (ex : list yaml) (ec : option yaml)
+                    (evs' : entries) : entries :=
+  let n := copy_prop [] d "$default" "$is-default" in
+  let n := match def with Some c => n ++ [("$default-clock-type-name", c)] | None => n end in
+  let n := n ++ [("$features", YMap [("packet", YMap pkt); ("event-record", YMap er)])] in
+  let n := match ex with [] => n | _ => n ++ [("packet-context-field-type-extra-members", YSeq ex)] end in
+  let n := match ec with Some c => n ++ [("event-record-common-context-field-type", c)] | None => n end in
+  n ++ [("event-record-types", YMap evs')].
+
+(* Everything _conv_dst_node computed, when it succeeds (for ALL inputs). *)
+Lemma conv_dst_inv : forall d y', conv_dst (YMap d) = Ok y' ->
+  exists p pf ehf tsb tse ehc total content fbeg fend fdisc fid fts ex ec evs evs',
+    lookup "packet-context-type" d = Some (YMap p) /\ lookup "fields" p = Some (YMap pf)
+    /\ opt_fields (getn "event-header-type" d) = Ok ehf
+    /\ clk_name (lookup "timestamp_begin" pf) = Ok tsb
+    /\ clk_name (lookup "timestamp_end" pf) = Ok tse
+    /\ (forall a b, tsb = Some a -> tse = Some b -> yaml_eqb a b = true)
+    /\ match ehf with Some ef => clk_name (lookup "timestamp" ef) | None => Ok None end = Ok ehc
+    /\ req_ft "packet_size" pf = Ok total /\ req_ft "content_size" pf = Ok content
+    /\ conv_ft_if_exists (Some pf) "timestamp_begin" = Ok fbeg
+    /\ conv_ft_if_exists (Some pf) "timestamp_end" = Ok fend
+    /\ conv_ft_if_exists (Some pf) "events_discarded" = Ok fdisc
+    /\ conv_ft_if_exists (Some (match ehf with Some ef => ef | None => [] end)) "id" = Ok fid
+    /\ conv_ft_if_exists (Some (match ehf with Some ef => ef | None => [] end)) "timestamp" = Ok fts
+    /\ extra_members pf = Ok ex
+    /\ match getn "event-context-type" d with Some t => rbind (conv_ft t) (fun c => Ok (Some c)) | None => Ok None end = Ok ec
+    /\ lookup "events" d = Some (YMap evs) /\ conv_values conv_ert evs = Ok evs'
+    /\ y' = YMap (dst_node d (first_some ehc (first_some tsb tse)) (pkt_node total content fbeg fend fdisc)
+                           (er_node fid fts) ex ec evs').
+Proof.
+  intros d y' H. unfold conv_dst in H.
+  destruct (lookup "packet-context-type" d) as [[| | | | | |p]|] eqn:Ep; try discriminate.
+  destruct (lookup "fields" p) as [pcf|] eqn:Ef; [|discriminate].
+  apply rbind_ok in H as [ehf [Rehf H]].
+  destruct pcf as [| | | | | |pf]; try discriminate.
+  apply rbind_ok in H as [tsb [Rtsb H]]. apply rbind_ok in H as [tse [Rtse H]].
+  apply rbind_ok in H as [u [Rchk H]]. apply rbind_ok in H as [ehc [Rehc H]].
+  apply rbind_ok in H as [total [Rtotal H]]. apply rbind_ok in H as [content [Rcontent H]].
+  apply rbind_ok in H as [fbeg [Rfbeg H]]. apply rbind_ok in H as [fend [Rfend H]].
+  apply rbind_ok in H as [fdisc [Rfdisc H]].
+  apply rbind_ok in H as [fid [Rfid H]]. apply rbind_ok in H as [fts [Rfts H]].
+  apply rbind_ok in H as [ex [Rex H]]. apply rbind_ok in H as [n1 [Rn1 H]].
+  destruct (lookup "events" d) as [[| | | | | |evs]|] eqn:Eev; try discriminate.
+  apply rbind_ok in H as [evs' [Revs H]].
+  inversion H; subst y'. clear H.
+  assert (Hchk : forall a b, tsb = Some a -> tse = Some b -> yaml_eqb a b = true).
+  { intros a b -> ->. destruct (yaml_eqb a b); [reflexivity|discriminate]. }
+  exists p, pf, ehf, tsb, tse, ehc, total, content, fbeg, fend, fdisc, fid, fts, ex.
+  destruct (getn "event-context-type" d) as [t|] eqn:Ec.
+  - apply rbind_ok in Rn1 as [c [Rc Rn1]]. inversion Rn1; subst n1. clear Rn1.
+    exists (Some c), evs, evs'. rewrite Rc. cbn [rbind].
+    repeat split; try assumption; try reflexivity;
+      try (unfold dst_node, pkt_node, er_node, set_feature, put, has; cbn; destruct ex; reflexivity).
+  - inversion Rn1; subst n1. clear Rn1.
+    exists None, evs, evs'.
+    repeat split; try assumption; try reflexivity;
+      try (unfold dst_node, pkt_node, er_node, set_feature, put, has; cbn; destruct ex; reflexivity).
+Qed.
+
+Lemma dst_node_lookups : forall d def pkt er ex ec evs',
+  let n := dst_node d def pkt er ex ec evs' in
+  lookup "$is-default" n = lookup "$default" d
+  /\ lookup "$default-clock-type-name" n = def
+  /\ lookup "$features" n = Some (YMap [("packet", YMap pkt); ("event-record", YMap er)])
+  /\ lookup "packet-context-field-type-extra-members" n = match ex with [] => None | _ => Some (YSeq ex) end
+  /\ lookup "event-record-common-context-field-type" n = ec
+  /\ lookup "event-record-types" n = Some (YMap evs')
+  /\ keys_in ["$is-default"; "$default-clock-type-name"; "$features"; "packet-context-field-type-extra-members";
+              "event-record-common-context-field-type"; "event-record-types"] n = true.
+Proof.
+  intros d def pkt er ex ec evs'. unfold dst_node.
+  destruct def as [c|]; destruct ex as [|x ex]; destruct ec as [e|]; cbv zeta;
+    repeat split; try (lk; destruct (lookup "$default" d); reflexivity); try kin.
+Qed.
+
+(* ================================================================== default_clock_inference *)
+(* what clk_type_name_from_v2_int_ft_node returns *)
+Lemma clk_name_mapped : forall il c f rest nm,
+  lookup "class" il = Some (YStr c) -> one_of c ["int"; "integer"] = true ->
+  lookup "property-mappings" il = Some (YSeq (YMap f :: rest)) -> lookup "name" f = Some nm ->
+  clk_name (Some (YMap il)) = Ok (Some nm).
+Proof.
+  intros il c f rest nm H1 H2 H3 H4. unfold clk_name. rewrite H1.
+  unfold in_list, int_classes. fold (one_of c ["int"; "integer"]). rewrite H2.
+  unfold getn. rewrite H3, H4. reflexivity.
+Qed.
+
+Lemma clk_name_unmapped : forall il c,
+  lookup "class" il = Some (YStr c) -> one_of c ["int"; "integer"] = true ->
+  getn "property-mappings" il = None -> clk_name (Some (YMap il)) = Ok None.
+Proof.
+  intros il c H1 H2 H3. unfold clk_name. rewrite H1.
+  unfold in_list, int_classes. fold (one_of c ["int"; "integer"]). rewrite H2, H3. reflexivity.
+Qed.
+
+(* For ALL inputs on which _conv_dst_node succeeds: the default clock type name is the clock of the
+   event header `timestamp` member when it is mapped, else the one of `timestamp_begin`, else the one
+   of `timestamp_end` (each: the `name` of the FIRST property mapping of the integer); begin and end,
+   when both mapped, name the same clock.  No mapped timestamp member: no default clock. *)
+Theorem default_clock_inference_thm : forall d y',
+  conv_dst (YMap d) = Ok y' ->
+  exists n p pf ehf tsb tse ehc,
+    y' = YMap n
+    /\ lookup "packet-context-type" d = Some (YMap p) /\ lookup "fields" p = Some (YMap pf)
+    /\ opt_fields (getn "event-header-type" d) = Ok ehf
+    /\ clk_name (lookup "timestamp_begin" pf) = Ok tsb
+    /\ clk_name (lookup "timestamp_end" pf) = Ok tse
+    /\ match ehf with Some ef => clk_name (lookup "timestamp" ef) | None => Ok None end = Ok ehc
+    /\ (forall a b, tsb = Some a -> tse = Some b -> a = b)
+    /\ lookup "$default-clock-type-name" n = first_some ehc (first_some tsb tse).
+Proof.
+  intros d y' H.
+  destruct (conv_dst_inv d y' H) as (p & pf & ehf & tsb & tse & ehc & total & content & fbeg & fend & fdisc & fid & fts
+                                     & ex & ec & evs & evs' & H1 & H2 & H3 & H4 & H5 & H6 & H7 & _ & _ & _ & _ & _ & _ & _ & _ & _ & _ & _ & ->).
+  eexists. exists p, pf, ehf, tsb, tse, ehc. split; [reflexivity|].
+  repeat split; try assumption.
+  - intros a b Ha Hb. apply yaml_eqb_sound. now apply H6.
+  - apply dst_node_lookups.
+Qed.
+
+(* ... and a begin / end mismatch is a configuration error, whatever else the stream contains *)
+Theorem clock_mismatch_is_error : forall d p pf ehf a b,
+  lookup "packet-context-type" d = Some (YMap p) -> lookup "fields" p = Some (YMap pf) ->
+  opt_fields (getn "event-header-type" d) = Ok ehf ->
+  clk_name (lookup "timestamp_begin" pf) = Ok (Some a) ->
+  clk_name (lookup "timestamp_end" pf) = Ok (Some b) -> a <> b ->
+  exists w, conv_dst (YMap d) = CfgErr w.
+Proof.
+  intros d p pf ehf a b H1 H2 H3 H4 H5 Hab. unfold conv_dst. rewrite H1, H2, H3. cbn [rbind].
+  rewrite H4, H5. cbn [rbind].
+  destruct (yaml_eqb a b) eqn:E; [apply yaml_eqb_sound in E; contradiction|].
+  eexists. reflexivity.
+Qed.
+
+(* ================================================================== feature_inference *)
+(* a reserved member name `o` (looked up in the user's structure) and the feature property `v` the
+   converter wrote: absent -> `false`; present -> the user's field type, converted *)
+Definition feature_spec (o : option yaml) (v : option yaml) : Prop :=
+  match o with
+  | None => v = Some (YBool false)
+  | Some y => exists c, conv_ft y = Ok c /\ v = Some c
+  end.
+
+Lemma conv_ft_if_exists_spec : forall l k r,
+  conv_ft_if_exists (Some l) k = Ok r -> feature_spec (lookup k l) (Some (feature_val r)).
+Proof.
+  intros l k r H. unfold conv_ft_if_exists in H. unfold feature_spec.
+  destruct (lookup k l) as [y|].
+  - apply rbind_ok in H as [c [Hc H]]. inversion H; subst. exists c. split; [exact Hc|reflexivity].
+  - inversion H; subst. reflexivity.
+Qed.
+
+Definition member_item (name : string) (c : yaml) : yaml := YMap [(name, YMap [("field-type", c)])].
+
+Lemma extra_members_spec : forall pf ex,
+  extra_members pf = Ok ex ->
+  Forall2 (fun kv item => exists c, conv_ft (snd kv) = Ok c /\ item = member_item (fst kv) c)
+          (filter (fun kv => negb (in_list (fst kv) ctf_member_names)) pf) ex.
+Proof.
+  induction pf as [|kv pf IH]; intros ex H; cbn [extra_members] in H.
+  - inversion H; subst. constructor.
+  - cbn [filter]. destruct (in_list (fst kv) ctf_member_names); cbn [negb].
+    + now apply IH.
+    + apply rbind_ok in H as [c [Hc H]]. apply rbind_ok in H as [r [Hr H]]. inversion H; subst.
+      constructor; [exists c; split; [exact Hc|reflexivity]|now apply IH].
+Qed.
+
+(* For ALL inputs on which _conv_dst_node succeeds: the reserved member names of the packet context and
+   of the event header become the barectf 3 features, each carrying exactly the user's (converted)
+   field type, `false` when the member is absent; every other packet context member becomes an extra
+   member, in document order; nothing else is produced from those two structures. *)
+Theorem feature_inference_thm : forall d y',
+  conv_dst (YMap d) = Ok y' ->
+  exists n p pf ehf pkt er,
+    y' = YMap n
+    /\ lookup "packet-context-type" d = Some (YMap p) /\ lookup "fields" p = Some (YMap pf)
+    /\ opt_fields (getn "event-header-type" d) = Ok ehf
+    /\ lookup "$features" n = Some (YMap [("packet", YMap pkt); ("event-record", YMap er)])
+    /\ keys pkt = ["total-size-field-type"; "content-size-field-type"; "beginning-timestamp-field-type";
+                   "end-timestamp-field-type"; "discarded-event-records-counter-snapshot-field-type"]
+    /\ keys er = ["type-id-field-type"; "timestamp-field-type"]
+    /\ feature_spec (lookup "packet_size" pf) (lookup "total-size-field-type" pkt)
+    /\ feature_spec (lookup "content_size" pf) (lookup "content-size-field-type" pkt)
+    /\ feature_spec (lookup "timestamp_begin" pf) (lookup "beginning-timestamp-field-type" pkt)
+    /\ feature_spec (lookup "timestamp_end" pf) (lookup "end-timestamp-field-type" pkt)
+    /\ feature_spec (lookup "events_discarded" pf) (lookup "discarded-event-records-counter-snapshot-field-type" pkt)
+    /\ (let ef := match ehf with Some ef => ef | None => [] end in
+        feature_spec (lookup "id" ef) (lookup "type-id-field-type" er)
+        /\ feature_spec (lookup "timestamp" ef) (lookup "timestamp-field-type" er))
+    /\ exists ex,
+         Forall2 (fun kv item => exists c, conv_ft (snd kv) = Ok c /\ item = member_item (fst kv) c)
+                 (filter (fun kv => negb (in_list (fst kv) ctf_member_names)) pf) ex
+         /\ lookup "packet-context-field-type-extra-members" n = match ex with [] => None | _ => Some (YSeq ex) end.
+Proof.
+  intros d y' H.
+  destruct (conv_dst_inv d y' H) as (p & pf & ehf & tsb & tse & ehc & total & content & fbeg & fend & fdisc & fid & fts
+                                     & ex & ec & evs & evs' & H1 & H2 & H3 & _ & _ & _ & _ & Ht & Hc & Hb & He & Hd & Hi & Hts & Hex & _ & _ & _ & ->).
+  eexists. exists p, pf, ehf, (pkt_node total content fbeg fend fdisc), (er_node fid fts).
+  split; [reflexivity|]. split; [exact H1|]. split; [exact H2|]. split; [exact H3|].
+  split; [apply dst_node_lookups|]. split; [reflexivity|]. split; [reflexivity|].
+  assert (Hreq : forall k r, req_ft k pf = Ok r -> feature_spec (lookup k pf) (Some r)).
+  { intros k r Hr. unfold req_ft in Hr. unfold feature_spec. destruct (lookup k pf); [|discriminate]. eauto. }
+  split; [now apply Hreq|]. split; [now apply Hreq|].
+  split; [now apply conv_ft_if_exists_spec|]. split; [now apply conv_ft_if_exists_spec|].
+  split; [now apply conv_ft_if_exists_spec|].
+  split; [split; now apply conv_ft_if_exists_spec|].
+  exists ex. split; [now apply extra_members_spec|apply dst_node_lookups].
+Qed.
+
+(* ================================================================== version_detect *)
+Theorem version_detect_thm :
+  (forall l, major_version true (YMap l) = Ok 3%Z)
+  /\ (forall l, major_version false (YMap l) = Ok 2%Z)
+  /\ (forall l, parser_dispatch true (YMap l) = Ok 3%Z)
+  /\ (forall l, parser_dispatch false (YMap l) = Ok 2%Z)
+  /\ (forall b y, (forall l, y <> YMap l) -> is_ok (major_version b y) = false /\ is_ok (parser_dispatch b y) = false).
+Proof.
+  repeat split; try reflexivity; destruct b, y; try reflexivity; exfalso; eapply H; reflexivity.
+Qed.
+
+(* ================================================================== the hypotheses are needed: refutations
+   Each witness is a document the barectf 2 schema accepts and the independent reading understands,
+   on which the converter's output does NOT read as the same abstract configuration. *)
+Definition disagrees (w : yaml) : Prop :=
+  exists g, v2_sem 10 w = Some g /\ forall t', conv_config w = Ok t' -> v3_sem 10 t' <> Some g.
+
+Ltac refute w :=
+  unfold disagrees;
+  let g := eval vm_compute in (v2_sem 10 w) in
+  match g with
+  | Some ?c => exists c; split; [vm_compute; reflexivity|];
+               let t := eval vm_compute in (conv_config w) in
+               match t with
+               | Ok ?t' => intros x Hx; assert (Hc : conv_config w = Ok t') by (vm_compute; reflexivity);
+                           rewrite Hc in Hx; inversion Hx; subst x; vm_compute; discriminate
+               | _ => intros x Hx; assert (Hc : conv_config w = t) by (vm_compute; reflexivity);
+                      rewrite Hc in Hx; discriminate
+               end
+  end.
+
+Theorem H1_real_byte_order_refuted : disagrees w_real_byte_order.
+Proof. refute w_real_byte_order. Qed.
+Theorem H2_fields_null_refuted : disagrees w_fields_null /\ conv_config w_fields_null = Crash.
+Proof. split; [refute w_fields_null|vm_compute; reflexivity]. Qed.
+Theorem H3_seq_num_refuted : disagrees w_seq_num.
+Proof. refute w_seq_num. Qed.
+Theorem H4_mixed_clocks_refuted : disagrees w_mixed_clocks.
+Proof. refute w_mixed_clocks. Qed.
+Theorem H5_header_members_refuted : disagrees w_header_members.
+Proof. refute w_header_members. Qed.
+Theorem H6_payload_mapping_refuted : disagrees w_payload_mapping.
+Proof. refute w_payload_mapping. Qed.
+
+(* ================================================================== clocks *)
+Lemma clock_equiv : forall y c, v2_clock y = Some c -> exists y', conv_clock y = Ok y' /\ v3_clock y' = Some c.
+Proof.
+  intros y c H. destruct y as [| | | | | |l]; try discriminate. cbn [v2_clock] in H.
+  destruct (keys_in v2_clock_keys l) eqn:Hk; [|discriminate]. cbn [negb] in H.
+  destruct (has_both l) eqn:Hb; [discriminate|].
+  inv_obind H. inv_obind H. inv_obind H. inv_obind H. inv_obind H. inv_obind H. inv_obind H. inv_obind H.
+  inversion H; subst c. clear H.
+  rename a into fr, a0 into pr, a1 into off, a2 into ab, a3 into de, a4 into uu, a5 into c1, a6 into c2.
+  eexists. split; [reflexivity|].
+  set (r := rename "$return-ctype" "$c-type" (rename "return-ctype" "$c-type" (rename "absolute" "origin-is-unix-epoch"
+              (rename "error-cycles" "precision" (rename "freq" "frequency" l))))).
+  assert (Hn : forall k, one_of k v2_clock_keys = false -> lookup k l = None) by (intros; eapply keys_in_none; eauto).
+  assert (L1 : lookup "frequency" r = lookup "freq" l).
+  { unfold r. lk. rewrite (Hn "frequency" eq_refl). destruct (lookup "freq" l); reflexivity. }
+  assert (L2 : lookup "precision" r = lookup "error-cycles" l).
+  { unfold r. lk. rewrite (Hn "precision" eq_refl). destruct (lookup "error-cycles" l); reflexivity. }
+  assert (L3 : lookup "origin-is-unix-epoch" r = lookup "absolute" l).
+  { unfold r. lk. rewrite (Hn "origin-is-unix-epoch" eq_refl). destruct (lookup "absolute" l); reflexivity. }
+  assert (L4 : lookup "offset" r = lookup "offset" l) by (unfold r; lk; reflexivity).
+  assert (L5 : lookup "description" r = lookup "description" l) by (unfold r; lk; reflexivity).
+  assert (L6 : lookup "uuid" r = lookup "uuid" l) by (unfold r; lk; reflexivity).
+  assert (L7 : lookup "$c-type" r = match lookup "$return-ctype" l with Some v => Some v | None => lookup "return-ctype" l end).
+  { unfold r. lk. rewrite (Hn "$c-type" eq_refl). destruct (lookup "$return-ctype" l); [reflexivity|].
+    destruct (lookup "return-ctype" l); reflexivity. }
+  assert (K : keys_in v3_clock_keys r = true) by (unfold r, v3_clock_keys; unfold v2_clock_keys in Hk; kin).
+  cbn [v3_clock]. rewrite K. cbn [negb].
+  rewrite (rd_z_ext _ _ _ _ L1), E. cbn [obind].
+  rewrite (rd_z_ext _ _ _ _ L2), E0. cbn [obind].
+  assert (Hoff : rd_offset r = rd_offset l) by (unfold rd_offset; now rewrite (opt_of_ext _ _ _ _ L4)).
+  rewrite Hoff, E1. cbn [obind].
+  rewrite (rd_b_ext _ _ _ _ L3), E2. cbn [obind].
+  rewrite (rd_s_ext _ _ _ _ L5), E3. cbn [obind].
+  rewrite (rd_s_ext _ _ _ _ L6), E4. cbn [obind].
+  (* the C type: exactly one of the two spellings can be present *)
+  assert (Hct : rd_s "$c-type" r = Some (match c1 with Some _ => c1 | None => c2 end)).
+  { unfold rd_s, opt_of. rewrite L7. unfold has_both in Hb. rewrite !mem_keys in Hb.
+    unfold rd_s, opt_of in E5, E6.
+    destruct (lookup "$return-ctype" l) as [v2|]; destruct (lookup "return-ctype" l) as [v1|]; try discriminate.
+    - inversion E5; subst c1. exact E6.
+    - inversion E6; subst c2. destruct v1; inversion E5; subst; reflexivity.
+    - inversion E5; inversion E6; reflexivity. }
+  rewrite Hct. reflexivity.
+Qed.
+
+(* lists of named objects, converted and read member by member *)
+Lemma named_equiv : forall {A} (cv : yaml -> res yaml) (rd2 rd3 : yaml -> option A) (tr : A -> A) (ok : yaml -> bool),
+  (forall y a, rd2 y = Some a -> ok y = true -> exists y', cv y = Ok y' /\ rd3 y' = Some (tr a)) ->
+  forall l la, named rd2 l = Some la -> forallb (fun kv => ok (snd kv)) l = true ->
+  exists l', conv_values cv l = Ok l' /\ named rd3 l' = Some (map (fun na => (fst na, tr (snd na))) la)
+             /\ keys l' = keys l.
+Proof.
+  intros A cv rd2 rd3 tr ok Hone. induction l as [|[k y] l IH]; intros la H Hok; unfold named in *; simpl in *.
+  - inversion H; subst. exists []. repeat split.
+  - apply andb_prop in Hok. destruct Hok as [Hok1 Hok2].
+    destruct (rd2 y) as [a|] eqn:Ea; simpl in H; [|discriminate].
+    destruct (omapM (fun kv => option_map (pair (fst kv)) (rd2 (snd kv))) l) as [la'|] eqn:El; simpl in H; [|discriminate].
+    inversion H; subst la. clear H.
+    destruct (Hone y a Ea Hok1) as [y' [C1 C2]].
+    destruct (IH la' eq_refl Hok2) as [l' [D1 [D2 D3]]].
+    rewrite C1. simpl. rewrite D1. simpl. eexists. split; [reflexivity|]. simpl. rewrite C2. simpl.
+    rewrite D2. simpl. split; [reflexivity|]. now rewrite D3.
+Qed.
+
+(* ================================================================== events *)
+Definition erase_o (o : option ft) : option ft := option_map erase_clk o.
+Definition erase_event (e : event) : event := mkEvent (e_level e) (erase_o (e_ctx e)) (erase_o (e_payload e)).
+
+Lemma v3_ft_is_map : forall fuel y f, v3_ft fuel y = Some f -> exists l, y = YMap l.
+Proof. intros [|n] y f H; [discriminate|]. destruct y; try discriminate. eauto. Qed.
+
+(* an optional field type property: converter and both readings *)
+Lemma opt_ft_equiv : forall fuel k l o,
+  rd_ft (v2_ft fuel) k l = Some o -> oft_conv_ok fuel k l = true ->
+  match getn k l with
+  | None => o = None
+  | Some t => exists c m f, conv_ft t = Ok c /\ c = YMap m /\ o = Some f /\ v3_ft fuel c = Some (erase_clk f)
+  end.
+Proof.
+  intros fuel k l o H Hok. unfold rd_ft in H. unfold oft_conv_ok in Hok. unfold getn. unfold opt_of in *.
+  destruct (lookup k l) as [[| | | | | |]|] eqn:E; try (inversion H; reflexivity);
+    (destruct (v2_ft fuel _) as [f|] eqn:Ef; [|discriminate]; inversion H; subst o;
+     destruct (ft_equiv _ _ _ Ef Hok) as [c [C1 C2]]; destruct (v3_ft_is_map _ _ _ C2) as [m ->];
+     exists (YMap m), m, f; repeat split; assumption).
+Qed.
+
+Lemma event_equiv : forall fuel y e,
+  v2_event fuel y = Some e -> valid_event fuel y = true ->
+  exists y', conv_ert y = Ok y' /\ v3_event fuel y' = Some (erase_event e).
+Proof.
+  intros fuel y e H Hv. destruct y as [| | | | | |l]; try discriminate.
+  unfold valid_event in Hv. rewrite H in Hv.
+  apply andb_prop in Hv. destruct Hv as [Hv _]. apply andb_prop in Hv. destruct Hv as [Hv _].
+  apply andb_prop in Hv. destruct Hv as [Hc Hp].
+  cbn [v2_event] in H.
+  destruct (keys_in ["log-level"; "context-type"; "payload-type"] l) eqn:Hk; [|discriminate]. cbn [negb] in H.
+  inv_obind H. inv_obind H. inv_obind H. inversion H; subst e. clear H. rename a into lv, a0 into cx, a1 into pl.
+  pose proof (opt_ft_equiv _ _ _ _ E0 Hc) as Hcx. pose proof (opt_ft_equiv _ _ _ _ E1 Hp) as Hpl.
+  cbn [conv_ert].
+  set (n0 := copy_prop [] l "log-level" "log-level").
+  assert (N1 : lookup "log-level" n0 = lookup "log-level" l).
+  { unfold n0. lk. destruct (lookup "log-level" l); reflexivity. }
+  assert (N2 : forall k, String.eqb k "log-level" = false -> lookup k n0 = None).
+  { intros k Hk0. unfold n0. rewrite lookup_copy_prop, Hk0. destruct (lookup "log-level" l); reflexivity. }
+  assert (N3 : keys_in ["log-level"; "specific-context-field-type"; "payload-field-type"] n0 = true) by (unfold n0; kin).
+  assert (Hlv : forall n1, lookup "log-level" n1 = lookup "log-level" l -> rd_level n1 = Some lv).
+  { intros n1 Hn1. rewrite <- E. unfold rd_level. now rewrite (opt_of_ext _ _ _ _ Hn1). }
+  unfold erase_event. cbn [e_level e_ctx e_payload].
+  destruct (getn "context-type" l) as [tc|]; destruct (getn "payload-type" l) as [tp|].
+  - destruct Hcx as (c1 & m1 & f1 & C1 & -> & -> & C3). destruct Hpl as (c2 & m2 & f2 & P1 & -> & -> & P3).
+    rewrite C1. cbn [rbind]. rewrite P1. cbn [rbind].
+    eexists. split; [reflexivity|]. cbn [v3_event].
+    assert (K : keys_in ["log-level"; "specific-context-field-type"; "payload-field-type"]
+                  ((n0 ++ [("specific-context-field-type", YMap m1)]) ++ [("payload-field-type", YMap m2)]) = true) by kin.
+    rewrite K. cbn [negb].
+    rewrite Hlv by (lk; rewrite N1; destruct (lookup "log-level" l); reflexivity). cbn [obind].
+    unfold rd_ft, opt_of. lk. rewrite !N2 by reflexivity. cbn [lookup String.eqb Ascii.eqb Bool.eqb fst snd].
+    rewrite C3. cbn [option_map obind]. rewrite P3. reflexivity.
+  - destruct Hcx as (c1 & m1 & f1 & C1 & -> & -> & C3). subst pl.
+    rewrite C1. cbn [rbind].
+    eexists. split; [reflexivity|]. cbn [v3_event].
+    assert (K : keys_in ["log-level"; "specific-context-field-type"; "payload-field-type"]
+                  (n0 ++ [("specific-context-field-type", YMap m1)]) = true) by kin.
+    rewrite K. cbn [negb].
+    rewrite Hlv by (lk; rewrite N1; destruct (lookup "log-level" l); reflexivity). cbn [obind].
+    unfold rd_ft, opt_of. lk. rewrite !N2 by reflexivity. cbn [lookup String.eqb Ascii.eqb Bool.eqb fst snd].
+    rewrite C3. reflexivity.
+  - subst cx. destruct Hpl as (c2 & m2 & f2 & P1 & -> & -> & P3).
+    rewrite P1. cbn [rbind].
+    eexists. split; [reflexivity|]. cbn [v3_event].
+    assert (K : keys_in ["log-level"; "specific-context-field-type"; "payload-field-type"]
+                  (n0 ++ [("payload-field-type", YMap m2)]) = true) by kin.
+    rewrite K. cbn [negb].
+    rewrite Hlv by (lk; rewrite N1; destruct (lookup "log-level" l); reflexivity). cbn [obind].
+    unfold rd_ft, opt_of. lk. rewrite !N2 by reflexivity. cbn [lookup String.eqb Ascii.eqb Bool.eqb fst snd].
+    rewrite P3. reflexivity.
+  - subst cx pl. cbn [rbind].
+    eexists. split; [reflexivity|]. cbn [v3_event]. rewrite N3. cbn [negb].
+    rewrite (Hlv n0 N1). cbn [obind].
+    unfold rd_ft, opt_of. rewrite !N2 by reflexivity. reflexivity.
+Qed.
+
+(* ================================================================== streams *)
+Section FtInd.
+  Variable P : ft -> Prop.
+  Hypothesis Hint : forall sz sg al b c, P (FInt sz sg al b c).
+  Hypothesis Henum : forall sz sg al b c r, P (FEnum sz sg al b c r).
+  Hypothesis Hreal : forall sz al, P (FReal sz al).
+  Hypothesis Hstr : P FStr.
+  Hypothesis Hsarr : forall n e, P e -> P (FSArr n e).
+  Hypothesis Hdarr : forall e, P e -> P (FDArr e).
+  Hypothesis Hstruct : forall ma ms, Forall (fun m => P (snd m)) ms -> P (FStruct ma ms).
+
+  Fixpoint ft_ind' (f : ft) : P f :=
+    match f with
+    | FInt sz sg al b c => Hint sz sg al b c
+    | FEnum sz sg al b c r => Henum sz sg al b c r
+    | FReal sz al => Hreal sz al
+    | FStr => Hstr
+    | FSArr n e => Hsarr n e (ft_ind' e)
+    | FDArr e => Hdarr e (ft_ind' e)
+    | FStruct ma ms => Hstruct ma ms ((fix go (l : list (string * ft)) : Forall (fun m => P (snd m)) l :=
+                                         match l with
+                                         | [] => Forall_nil _
+                                         | m :: l' => Forall_cons m (ft_ind' (snd m)) (go l')
+                                         end) ms)
+    end.
+End FtInd.
+
+Lemma no_clk_erase : forall f, no_clk f = true -> erase_clk f = f.
+Proof.
+  induction f as [| | | | n e IH | e IH | ma ms IH] using ft_ind'; intros H; simpl in *.
+  - destruct c; [discriminate|reflexivity].
+  - destruct c; [discriminate|reflexivity].
+  - reflexivity.
+  - reflexivity.
+  - now rewrite IH.
+  - now rewrite IH.
+  - f_equal. induction IH as [|[nm g] ms Hg _ IHl]; simpl in *; [reflexivity|].
+    apply andb_prop in H. destruct H as [H1 H2]. rewrite (Hg H1), (IHl H2). reflexivity.
+Qed.
+
+Lemma no_clk_o_erase : forall o, no_clk_o o = true -> erase_o o = o.
+Proof. intros [f|] H; simpl in *; [now rewrite no_clk_erase|reflexivity]. Qed.
+
+Lemma ts_restore : forall c f, ts_ok c (Some f) = true -> set_clk c (erase_clk f) = f.
+Proof.
+  intros c f H. destruct f; simpl in H; try discriminate. simpl.
+  destruct clk as [k|]; destruct c as [x|]; simpl in H; try discriminate.
+  - apply String.eqb_eq in H. now subst.
+  - reflexivity.
+Qed.
+
+Lemma getn_opt_of : forall k l, getn k l = opt_of k l.
+Proof. intros. unfold getn, opt_of. destruct (lookup k l) as [[| | | | | |]|]; reflexivity. Qed.
+
+Lemma forallb_lookup : forall (P : yaml -> bool) l k y,
+  forallb (fun kv => P (snd kv)) l = true -> lookup k l = Some y -> P y = true.
+Proof.
+  intros P l k y H. induction l as [|kv l IH]; simpl in *; [discriminate|].
+  apply andb_prop in H. destruct H as [H1 H2].
+  destruct (String.eqb (fst kv) k); [intros E; inversion E; subst; exact H1|now apply IH].
+Qed.
+
+(* the clock name the converter reads off a member the barectf 2 reading understands as an integer *)
+Lemma clk_name_of_ft : forall fuel y sz sg al b ck,
+  v2_ft fuel y = Some (FInt sz sg al b ck) -> clk_name (Some y) = Ok (option_map YStr ck).
+Proof.
+  intros [|n] y sz sg al b ck H; [discriminate|]. destruct y as [| | | | | |l]; try discriminate.
+  cbn [v2_ft] in H. destruct (class_of l) as [c|] eqn:Ec; [|discriminate]. cbn [obind] in H.
+  pose proof (proj1 (class_of_lookup l c) Ec) as Hcl.
+  destruct (one_of c ["int"; "integer"]) eqn:C1.
+  - destruct (v2_int l) as [[[[[sz' sg'] al'] b'] ck']|] eqn:Ea; [|discriminate]. inversion H; subst. clear H.
+    unfold v2_int in Ea. destruct (negb (keys_in v2_int_keys l)); [discriminate|]. rewrite Hcl in Ea. rewrite C1 in Ea.
+    cbn [negb] in Ea. destruct (lookup "size" l) as [[| |z| | | |]|]; try discriminate.
+    inv_obind Ea. inv_obind Ea. inv_obind Ea. inv_obind Ea. inversion Ea; subst. clear Ea.
+    unfold clk_name. rewrite Hcl. unfold in_list, int_classes. fold (one_of c ["int"; "integer"]). rewrite C1.
+    rewrite getn_opt_of. unfold rd_mapping in E2.
+    destruct (opt_of "property-mappings" l) as [[| | | | |[|[| | | | | |m] [|? ?]]|]|]; try discriminate.
+    + destruct (lookup "name" m) as [[| | | |nm| |]|]; try discriminate. inversion E2; subst. reflexivity.
+    + inversion E2; subst. reflexivity.
+  - (* any other class reads as something that is not FInt *)
+    exfalso.
+    destruct (one_of c ["enum"; "enumeration"]).
+    { destruct (negb (keys_in ["class"; "value-type"; "members"] l)); [discriminate|].
+      destruct (lookup "value-type" l) as [[| | | | | |vl]|]; try discriminate.
+      destruct (lookup "members" l) as [[| | | | |ms|]|]; try discriminate.
+      inv_obind H. inv_obind H. destruct a as [[[[? ?] ?] ?] ?]. discriminate. }
+    destruct (one_of c ["flt"; "float"; "floating-point"]).
+    { destruct (negb (keys_in ["class"; "size"; "align"; "byte-order"] l)); [discriminate|].
+      destruct (lookup "size" l) as [[| | | | | |sl]|]; try discriminate.
+      inv_obind H. destruct (real_size_cases _ _ _ _ H) as [e [m [_ [_ Hf]]]]. discriminate. }
+    destruct (one_of c ["str"; "string"]).
+    { destruct (keys_in ["class"; "encoding"] l); discriminate. }
+    destruct (String.eqb c "array").
+    { destruct (negb (keys_in ["class"; "length"; "element-type"] l)); [discriminate|].
+      destruct (lookup "element-type" l); [|discriminate].
+      destruct (lookup "length" l) as [[| |len| |s| |]|]; try discriminate.
+      - destruct (v2_ft n y); discriminate.
+      - rewrite match_dynamic in H. destruct (String.eqb s "dynamic"); [|discriminate].
+        destruct (v2_ft n y); discriminate. }
+    destruct (one_of c ["struct"; "structure"]); [|discriminate].
+    destruct (negb (keys_in ["class"; "min-align"; "fields"] l)); [discriminate|].
+    inv_obind H. destruct (opt_of "fields" l) as [[| | | | | |fl]|]; try discriminate.
+    destruct (omapM _ fl); discriminate.
+Qed.
+
+(* a member of the packet context / event header looked up by a reserved name *)
+Lemma member_equiv : forall fuel pf k o,
+  forallb (fun kv => ft_conv_ok fuel (snd kv)) pf = true ->
+  rd_ft (v2_ft fuel) k pf = Some o ->
+  exists r, conv_ft_if_exists (Some pf) k = Ok r
+    /\ match o with
+       | None => r = None /\ lookup k pf = None
+       | Some f => exists y m, lookup k pf = Some y /\ v2_ft fuel y = Some f
+                               /\ r = Some (YMap m) /\ v3_ft fuel (YMap m) = Some (erase_clk f)
+       end.
+Proof.
+  intros fuel pf k o Hok H. unfold rd_ft, opt_of in H. unfold conv_ft_if_exists.
+  destruct (lookup k pf) as [y|] eqn:E.
+  - pose proof (forallb_lookup _ _ _ _ Hok E) as Hy.
+    destruct y as [| | | | | |l]; try (destruct fuel; discriminate).
+    destruct (v2_ft fuel (YMap l)) as [f|] eqn:Ef; [|discriminate]. inversion H; subst o.
+    destruct (ft_equiv _ _ _ Ef Hy) as [c [C1 C2]]. destruct (v3_ft_is_map _ _ _ C2) as [m ->].
+    rewrite C1. cbn [rbind]. eexists. split; [reflexivity|]. exists (YMap l), m. repeat split; assumption.
+  - inversion H; subst o. eexists. split; [reflexivity|]. split; reflexivity.
+Qed.
+
+Lemma required_equiv : forall fuel pf k f,
+  forallb (fun kv => ft_conv_ok fuel (snd kv)) pf = true ->
+  obind (lookup k pf) (v2_ft fuel) = Some f ->
+  exists m, req_ft k pf = Ok (YMap m) /\ v3_ft fuel (YMap m) = Some (erase_clk f).
+Proof.
+  intros fuel pf k f Hok H. unfold req_ft. destruct (lookup k pf) as [y|] eqn:E; [|discriminate]. cbn [obind] in H.
+  pose proof (forallb_lookup _ _ _ _ Hok E) as Hy.
+  destruct (ft_equiv _ _ _ H Hy) as [c [C1 C2]]. destruct (v3_ft_is_map _ _ _ C2) as [m ->]. eauto.
+Qed.
+
+Lemma extra_equiv : forall fuel pf xs,
+  forallb (fun kv => ft_conv_ok fuel (snd kv)) pf = true ->
+  others (v2_ft fuel) ["packet_size"; "content_size"; "timestamp_begin"; "timestamp_end"; "events_discarded"; "packet_seq_num"] pf = Some xs ->
+  exists ex, extra_members pf = Ok ex /\ omapM (v3_member (v3_ft fuel)) ex = Some (map erase_member xs).
+Proof.
+  intros fuel pf. unfold others, named. induction pf as [|[k y] pf IH]; intros xs Hok H; cbn [filter extra_members] in *.
+  - inversion H; subst. exists []. split; reflexivity.
+  - cbn [forallb snd] in Hok. apply andb_prop in Hok. destruct Hok as [Hy Hok].
+    cbn [fst] in *. unfold in_list, ctf_member_names.
+    fold (one_of k ["packet_size"; "content_size"; "timestamp_begin"; "timestamp_end"; "events_discarded"; "packet_seq_num"]).
+    destruct (one_of k ["packet_size"; "content_size"; "timestamp_begin"; "timestamp_end"; "events_discarded"; "packet_seq_num"]);
+      cbn [negb] in H.
+    + now apply IH.
+    + cbn [omapM fst snd] in H.
+      destruct (v2_ft fuel y) as [f|] eqn:Ef; cbn [option_map obind] in H; [|discriminate].
+      destruct (omapM (fun kv => option_map (pair (fst kv)) (v2_ft fuel (snd kv)))
+                      (filter (fun kv => negb (one_of (fst kv) ["packet_size"; "content_size"; "timestamp_begin"; "timestamp_end"; "events_discarded"; "packet_seq_num"])) pf))
+        as [xs'|] eqn:Exs; cbn [obind] in H; [|discriminate].
+      inversion H; subst xs. clear H.
+      destruct (ft_equiv _ _ _ Ef Hy) as [c [C1 C2]].
+      destruct (IH xs' Hok eq_refl) as [ex [X1 X2]].
+      cbn [snd]. rewrite C1. cbn [rbind]. rewrite X1. cbn [rbind]. eexists. split; [reflexivity|].
+      cbn [omapM v3_member]. rewrite C2. cbn [option_map obind]. rewrite X2. reflexivity.
+Qed.
+
+Lemma conv_dst_fwd : forall d p pf ehf tsb tse ehc total content fbeg fend fdisc fid fts ex ec evs evs',
+  lookup "packet-context-type" d = Some (YMap p) -> lookup "fields" p = Some (YMap pf) ->
+  opt_fields (getn "event-header-type" d) = Ok ehf ->
+  clk_name (lookup "timestamp_begin" pf) = Ok tsb ->
+  clk_name (lookup "timestamp_end" pf) = Ok tse ->
+  (forall a b, tsb = Some a -> tse = Some b -> yaml_eqb a b = true) ->
+  match ehf with Some ef => clk_name (lookup "timestamp" ef) | None => Ok None end = Ok ehc ->
+  req_ft "packet_size" pf = Ok total -> req_ft "content_size" pf = Ok content ->
+  conv_ft_if_exists (Some pf) "timestamp_begin" = Ok fbeg ->
+  conv_ft_if_exists (Some pf) "timestamp_end" = Ok fend ->
+  conv_ft_if_exists (Some pf) "events_discarded" = Ok fdisc ->
+  conv_ft_if_exists (Some (match ehf with Some ef => ef | None => [] end)) "id" = Ok fid ->
+  conv_ft_if_exists (Some (match ehf with Some ef => ef | None => [] end)) "timestamp" = Ok fts ->
+  extra_members pf = Ok ex ->
+  match getn "event-context-type" d with Some t => rbind (conv_ft t) (fun c => Ok (Some c)) | None => Ok None end = Ok ec ->
+  lookup "events" d = Some (YMap evs) -> conv_values conv_ert evs = Ok evs' ->
+  conv_dst (YMap d) = Ok (YMap (dst_node d (first_some ehc (first_some tsb tse)) (pkt_node total content fbeg fend fdisc)
+                                         (er_node fid fts) ex ec evs')).
+Proof.
+  intros d p pf ehf tsb tse ehc total content fbeg fend fdisc fid fts ex ec evs evs'
+         H1 H2 H3 H4 H5 H6 H7 H8 H9 H10 H11 H12 H13 H14 H15 H16 H17 H18.
+  unfold conv_dst. rewrite H1, H2, H3. cbn [rbind]. rewrite H4, H5. cbn [rbind].
+  assert (Hchk : match tsb, tse with
+                 | Some a, Some b => if yaml_eqb a b then Ok tt else CfgErr "Field types are not mapped to the same clock type"
+                 | _, _ => Ok tt
+                 end = Ok tt).
+  { destruct tsb as [a|]; destruct tse as [b|]; try reflexivity. now rewrite (H6 a b eq_refl eq_refl). }
+  rewrite Hchk. cbn [rbind]. rewrite H7. cbn [rbind].
+  rewrite H8, H9. cbn [rbind]. rewrite H10, H11, H12. cbn [rbind]. rewrite H13, H14. cbn [rbind].
+  rewrite H15. cbn [rbind]. rewrite H17.
+  destruct (getn "event-context-type" d) as [t|].
+  - apply rbind_ok in H16 as [c [Hc H16]]. inversion H16; subst ec. rewrite Hc. cbn [rbind]. rewrite H18. cbn [rbind].
+    unfold dst_node, pkt_node, er_node, set_feature, put, has. cbn. destruct ex; reflexivity.
+  - inversion H16; subst ec. cbn [rbind]. rewrite H18. cbn [rbind].
+    unfold dst_node, pkt_node, er_node, set_feature, put, has. cbn. destruct ex; reflexivity.
+Qed.
+
+Lemma erase_event_valid : forall fuel y e,
+  v2_event fuel y = Some e -> valid_event fuel y = true -> erase_event e = e.
+Proof.
+  intros fuel y e H Hv. unfold valid_event in Hv. destruct y; try discriminate. rewrite H in Hv.
+  apply andb_prop in Hv. destruct Hv as [Hv H2]. apply andb_prop in Hv. destruct Hv as [_ H1].
+  destruct e as [lv cx pl]. unfold erase_event. cbn in *. now rewrite (no_clk_o_erase _ H1), (no_clk_o_erase _ H2).
+Qed.
+
+(* the three timestamp members of a valid stream, seen by the converter *)
+Lemma ts_member_clk : forall fuel pf k o c,
+  forallb (fun kv => ft_conv_ok fuel (snd kv)) pf = true ->
+  rd_ft (v2_ft fuel) k pf = Some o -> ts_ok c o = true ->
+  clk_name (lookup k pf) = Ok (match o with Some _ => option_map YStr c | None => None end).
+Proof.
+  intros fuel pf k o c Hok H Hts.
+  destruct (member_equiv _ _ _ _ Hok H) as [r [_ Hm]].
+  destruct o as [f|].
+  - destruct Hm as (y & m & E & Ef & _ & _). rewrite E.
+    destruct f; simpl in Hts; try discriminate.
+    rewrite (clk_name_of_ft _ _ _ _ _ _ _ Ef).
+    destruct clk as [k'|]; destruct c as [x|]; simpl in Hts; try discriminate; [|reflexivity].
+    apply String.eqb_eq in Hts. now subst.
+  - destruct Hm as [_ E]. rewrite E. reflexivity.
+Qed.
+
+Lemma v2_fields_keys : forall t fl, v2_fields (Some (YMap t)) = Some fl ->
+  (opt_of "fields" t = None /\ fl = []) \/ lookup "fields" t = Some (YMap fl).
+Proof.
+  intros t fl H. cbn [v2_fields] in H.
+  destruct (negb (keys_in ["class"; "min-align"; "fields"] t)); [discriminate|].
+  destruct (class_of t) as [c|]; [|discriminate].
+  destruct (one_of c ["struct"; "structure"]); [|discriminate].
+  unfold opt_of in *. destruct (lookup "fields" t) as [[| | | | | |m]|]; try discriminate; inversion H; subst; auto.
+Qed.
+
+Lemma default_clock_is_stream_clock : forall ts beg en,
+  ts_ok (stream_clock ts beg en) ts = true -> ts_ok (stream_clock ts beg en) beg = true ->
+  ts_ok (stream_clock ts beg en) en = true ->
+  first_some (match ts with Some _ => option_map YStr (stream_clock ts beg en) | None => None end)
+             (first_some (match beg with Some _ => option_map YStr (stream_clock ts beg en) | None => None end)
+                         (match en with Some _ => option_map YStr (stream_clock ts beg en) | None => None end))
+  = option_map YStr (stream_clock ts beg en).
+Proof.
+  intros ts beg en H1 H2 H3.
+  destruct ts as [[? ? ? ? c1| | | | | |]|]; try discriminate;
+  destruct beg as [[? ? ? ? c2| | | | | |]|]; try discriminate;
+  destruct en as [[? ? ? ? c3| | | | | |]|]; try discriminate;
+  try destruct c1; try destruct c2; try destruct c3; cbn in *; try discriminate; reflexivity.
+Qed.
+
+Theorem stream_equiv : forall fuel y s,
+  v2_stream fuel y = Some s -> valid_stream fuel y = true ->
+  exists y', conv_dst y = Ok y' /\ v3_stream fuel y' = Some s.
+Proof.
+  intros fuel y s H Hv. destruct y as [| | | | | |d]; try discriminate.
+  unfold valid_stream in Hv. rewrite H in Hv.
+  repeat (apply andb_prop in Hv; let X := fresh "V" in destruct Hv as [Hv X]).
+  rename Hv into Vpc.
+  destruct (lookup "packet-context-type" d) as [[| | | | | |p]|] eqn:Ep; try discriminate.
+  destruct (lookup "fields" p) as [[| | | | | |pf]|] eqn:Epf; try discriminate.
+  cbn [v2_stream] in H.
+  destruct (keys_in ["$default"; "packet-context-type"; "event-header-type"; "event-context-type"; "events"] d) eqn:Hk; [|discriminate].
+  cbn [negb] in H. rewrite Ep in H.
+  (* packet context members *)
+  apply obind_some in H as [pf' [Epf' H]].
+  assert (pf' = pf) as ->.
+  { destruct (v2_fields_keys _ _ Epf') as [[A _]|A]; [unfold opt_of in A; rewrite Epf in A; discriminate|].
+    rewrite Epf in A. now inversion A. }
+  (* event header members *)
+  apply obind_some in H as [ef [Eef H]].
+  assert (Hehf : exists ehf, opt_fields (getn "event-header-type" d) = Ok ehf
+                             /\ ef = match ehf with Some x => x | None => [] end
+                             /\ forallb (fun kv => ft_conv_ok fuel (snd kv)) ef = true).
+  { rewrite getn_opt_of. unfold hdr_ok in V12.
+    destruct (opt_of "event-header-type" d) as [[| | | | | |tl]|]; try discriminate.
+    - destruct (v2_fields_keys _ _ Eef) as [[A ->]|A].
+      + unfold opt_of in A. unfold opt_fields.
+        destruct (lookup "fields" tl) as [[| | | | | |fl]|]; try discriminate. exists None. repeat split.
+      + rewrite A in V12. unfold opt_fields. rewrite A. exists (Some ef). repeat split. exact V12.
+    - inversion Eef; subst ef. exists None. repeat split. }
+  destruct Hehf as (ehf & Hopt & Hef & Hefok). clear V12.
+  apply obind_some in H as [total [Etotal H]]. apply obind_some in H as [content [Econtent H]].
+  apply obind_some in H as [beg [Ebeg H]]. apply obind_some in H as [en [Een H]].
+  apply obind_some in H as [disc [Edisc H]]. apply obind_some in H as [sq [Esq H]].
+  apply obind_some in H as [extra [Eextra H]].
+  apply obind_some in H as [id [Eid H]]. apply obind_some in H as [ts [Ets H]].
+  apply obind_some in H as [ehx [Eehx H]]. apply obind_some in H as [cx [Ecx H]].
+  destruct (lookup "events" d) as [[| | | | | |evs]|] eqn:Eev; try discriminate.
+  apply obind_some in H as [es [Ees H]]. inversion H; subst s. clear H.
+  cbn [s_seq s_eh_extra s_clock s_ts s_beg s_end s_total s_content s_disc s_id s_extra s_ctx] in *.
+  destruct sq; [discriminate|]. destruct ehx; [|discriminate].
+  set (ck := stream_clock ts beg en) in *.
+  (* converter side, member by member *)
+  destruct (required_equiv _ _ _ _ Vpc Etotal) as [mt [Rt Rt3]].
+  destruct (required_equiv _ _ _ _ Vpc Econtent) as [mc [Rc Rc3]].
+  destruct (member_equiv _ _ _ _ Vpc Ebeg) as [fbeg [Rb Rb3]].
+  destruct (member_equiv _ _ _ _ Vpc Een) as [fend [Re Re3]].
+  destruct (member_equiv _ _ _ _ Vpc Edisc) as [fdisc [Rd Rd3]].
+  destruct (member_equiv _ _ _ _ Hefok Eid) as [fid [Ri Ri3]].
+  destruct (member_equiv _ _ _ _ Hefok Ets) as [fts [Rts Rts3]].
+  destruct (extra_equiv _ _ _ Vpc Eextra) as [ex [Rex Rex3]].
+  pose proof (ts_member_clk _ _ _ _ _ Vpc Ebeg V6) as Cb.
+  pose proof (ts_member_clk _ _ _ _ _ Vpc Een V5) as Ce.
+  pose proof (ts_member_clk _ _ _ _ _ Hefok Ets V7) as Ct.
+  pose proof (opt_ft_equiv _ _ _ _ Ecx V11) as Hcx.
+  destruct (named_equiv conv_ert (v2_event fuel) (v3_event fuel) erase_event (valid_event fuel)
+              (event_equiv fuel) evs es Ees V10) as [evs' [Rev [Rev3 _]]].
+  assert (Hes : map (fun na => (fst na, erase_event (snd na))) es = es).
+  { clear -Ees V10. revert es Ees. unfold named. induction evs as [|[k y] evs IH]; intros es Ees; simpl in *.
+    - inversion Ees; reflexivity.
+    - apply andb_prop in V10. destruct V10 as [Vy Vr].
+      destruct (v2_event fuel y) as [e|] eqn:Ee; simpl in Ees; [|discriminate].
+      destruct (omapM (fun kv => option_map (pair (fst kv)) (v2_event fuel (snd kv))) evs) as [es'|]; simpl in Ees; [|discriminate].
+      inversion Ees; subst es. simpl. rewrite (erase_event_valid _ _ _ Ee Vy), (IH Vr es' eq_refl). reflexivity. }
+  rewrite Hes in Rev3. clear Hes.
+  (* the default clock the converter infers is the stream's clock *)
+  set (tsb := match beg with Some _ => option_map YStr ck | None => None end) in *.
+  set (tse := match en with Some _ => option_map YStr ck | None => None end) in *.
+  set (ehc := match ts with Some _ => option_map YStr ck | None => None end) in *.
+  assert (Hct : match ehf with Some ef0 => clk_name (lookup "timestamp" ef0) | None => Ok None end = Ok ehc).
+  { subst ef. destruct ehf as [ef0|]; [exact Ct|]. unfold ehc.
+    unfold rd_ft, opt_of in Ets. simpl in Ets. inversion Ets; subst ts. reflexivity. }
+  assert (Hdef : first_some ehc (first_some tsb tse) = option_map YStr ck).
+  { unfold ehc, tsb, tse, ck. now apply default_clock_is_stream_clock. }
+  assert (Hagree : forall a b, tsb = Some a -> tse = Some b -> yaml_eqb a b = true).
+  { unfold tsb, tse. intros a b Ha Hb. destruct beg; destruct en; try discriminate.
+    rewrite Ha in Hb. inversion Hb; subst. apply yaml_eqb_refl. }
+  assert (Hec : exists ec, match getn "event-context-type" d with Some t => rbind (conv_ft t) (fun c => Ok (Some c)) | None => Ok None end = Ok ec
+                           /\ match ec with
+                              | None => cx = None
+                              | Some c => exists m f, c = YMap m /\ cx = Some f /\ v3_ft fuel c = Some (erase_clk f)
+                              end).
+  { destruct (getn "event-context-type" d) as [t|].
+    - destruct Hcx as (c & m & f & C1 & -> & -> & C3). rewrite C1. exists (Some (YMap m)). split; [reflexivity|]. eauto.
+    - exists None. split; [reflexivity|exact Hcx]. }
+  destruct Hec as (ec & Rec & Rec3).
+  subst ef.
+  eexists. split.
+  { eapply conv_dst_fwd; eauto. }
+  (* barectf 3 reading of the node the converter built *)
+  destruct (dst_node_lookups d (first_some ehc (first_some tsb tse))
+              (pkt_node (YMap mt) (YMap mc) fbeg fend fdisc) (er_node fid fts) ex ec evs')
+    as (L1 & L2 & L3 & L4 & L5 & L6 & L7).
+  cbn [v3_stream]. rewrite L7. cbn [negb].
+  rewrite Hdef in L2.
+  assert (Hdc : rd_s "$default-clock-type-name" (dst_node d (first_some ehc (first_some tsb tse))
+              (pkt_node (YMap mt) (YMap mc) fbeg fend fdisc) (er_node fid fts) ex ec evs') = Some ck).
+  { unfold rd_s, opt_of. rewrite L2. destruct ck; reflexivity. }
+  rewrite Hdc. cbn [obind]. unfold sub. rewrite L3. cbn [lookup String.eqb Ascii.eqb Bool.eqb fst snd obind].
+  unfold pkt_node, er_node.
+  unfold v3_feature, v3_feature_off_by_default. cbn [lookup String.eqb Ascii.eqb Bool.eqb fst snd feature_val].
+  rewrite Rt3, Rc3. cbn [option_map obind].
+  (* the optional features *)
+  assert (Fplain : forall o r, (match o with
+                                | None => r = None /\ True
+                                | Some f => exists m, r = Some (YMap m) /\ v3_ft fuel (YMap m) = Some (erase_clk f)
+                                end) -> no_clk_o o = true ->
+            match feature_val r with
+            | YBool false => Some None
+            | YMap m => option_map Some (v3_ft fuel (YMap m))
+            | _ => None
+            end = Some o).
+  { intros o r Hr Hn. destruct o as [f|].
+    - destruct Hr as (m & -> & Hm). cbn [feature_val]. rewrite Hm. cbn [option_map]. simpl in Hn. now rewrite (no_clk_erase _ Hn).
+    - destruct Hr as [-> _]. reflexivity. }
+  assert (Fts : forall o r, (match o with
+                             | None => r = None /\ True
+                             | Some f => exists m, r = Some (YMap m) /\ v3_ft fuel (YMap m) = Some (erase_clk f)
+                             end) -> ts_ok ck o = true ->
+            match feature_val r with
+            | YBool false => Some None
+            | YMap m => option_map Some (option_map (set_clk ck) (v3_ft fuel (YMap m)))
+            | _ => None
+            end = Some o).
+  { intros o r Hr Hn. destruct o as [f|].
+    - destruct Hr as (m & -> & Hm). cbn [feature_val]. rewrite Hm. cbn [option_map]. now rewrite (ts_restore _ _ Hn).
+    - destruct Hr as [-> _]. reflexivity. }
+  assert (Wk : forall (o : option ft) (r : option yaml) k (l : entries),
+             match o with
+             | None => r = None /\ lookup k l = None
+             | Some f => exists y m, lookup k l = Some y /\ v2_ft fuel y = Some f /\ r = Some (YMap m) /\ v3_ft fuel (YMap m) = Some (erase_clk f)
+             end ->
+             match o with
+             | None => r = None /\ True
+             | Some f => exists m, r = Some (YMap m) /\ v3_ft fuel (YMap m) = Some (erase_clk f)
+             end).
+  { intros o r k l Hm. destruct o; [destruct Hm as (y0 & m & _ & _ & A & B); eauto|destruct Hm; auto]. }
+  rewrite (Fts beg fbeg (Wk _ _ _ _ Rb3) V6). cbn [obind].
+  rewrite (Fts en fend (Wk _ _ _ _ Re3) V5). cbn [obind].
+  rewrite (Fplain disc fdisc (Wk _ _ _ _ Rd3) V2). cbn [obind].
+  (* extra members *)
+  assert (Hex : match opt_of "packet-context-field-type-extra-members"
+                        (dst_node d (first_some ehc (first_some tsb tse))
+                           [("total-size-field-type", YMap mt); ("content-size-field-type", YMap mc);
+                            ("beginning-timestamp-field-type", feature_val fbeg); ("end-timestamp-field-type", feature_val fend);
+                            ("discarded-event-records-counter-snapshot-field-type", feature_val fdisc)]
+                           [("type-id-field-type", feature_val fid); ("timestamp-field-type", feature_val fts)] ex ec evs') with
+                | None => Some []
+                | Some (YSeq items) => omapM (v3_member (v3_ft fuel)) items
+                | Some _ => None
+                end = Some extra).
+  { unfold opt_of. unfold pkt_node, er_node in L4. rewrite L4.
+    assert (Hx : map erase_member extra = extra).
+    { clear -V0. induction extra as [|[nm g] xs IH]; simpl in *; [reflexivity|].
+      apply andb_prop in V0. destruct V0 as [A B]. unfold erase_member at 1. simpl. now rewrite (no_clk_erase _ A), (IH B). }
+    rewrite Hx in Rex3. destruct ex; [|exact Rex3]. simpl in Rex3. now inversion Rex3. }
+  rewrite Hex. cbn [obind].
+  rewrite (Fplain id fid (Wk _ _ _ _ Ri3) V1). cbn [obind].
+  rewrite (Fts ts fts (Wk _ _ _ _ Rts3) V7). cbn [obind].
+  (* common context *)
+  assert (Hcx3 : rd_ft (v3_ft fuel) "event-record-common-context-field-type"
+                   (dst_node d (first_some ehc (first_some tsb tse))
+                      [("total-size-field-type", YMap mt); ("content-size-field-type", YMap mc);
+                       ("beginning-timestamp-field-type", feature_val fbeg); ("end-timestamp-field-type", feature_val fend);
+                       ("discarded-event-records-counter-snapshot-field-type", feature_val fdisc)]
+                      [("type-id-field-type", feature_val fid); ("timestamp-field-type", feature_val fts)] ex ec evs') = Some cx).
+  { unfold rd_ft, opt_of. unfold pkt_node, er_node in L5. rewrite L5. destruct ec as [c|].
+    - destruct Rec3 as (m & f & -> & -> & C3). rewrite C3. cbn [option_map]. simpl in V. now rewrite (no_clk_erase _ V).
+    - subst cx. reflexivity. }
+  rewrite Hcx3. cbn [obind].
+  unfold pkt_node, er_node in L6, L1. rewrite L6. rewrite Rev3. cbn [obind].
+  unfold is_true. rewrite L1. reflexivity.
 Qed.
